@@ -340,7 +340,9 @@ pub fn fund(s: &mut Store, k: &Pubkey, lamports: u64) {
 pub fn must(s: &mut Store, tx: Tx, what: &str) {
     let r = process_tx(s, &tx);
     if !r.ok() {
-        panic!("world construction step failed: {what}: {:?} ({}) panic={:?}", r, crate::svm::err_name(r.code()), crate::svm::last_panic());
+        // (the inner panic text is clipped: it may itself quote an earlier construction failure)
+        let inner = crate::svm::last_panic().map(|p| p.chars().take(200).collect::<String>());
+        panic!("world construction step failed: {what}: {:?} ({}) panic={:?}", r, crate::svm::err_name(r.code()), inner);
     }
 }
 
